@@ -16,6 +16,10 @@
 //! of the sender, at the latest when it returns or when a send ordered after it returns.  "Who can
 //! run" is judged with the weaker guarantee that the receiver is woken once more sends have
 //! *returned* than values have been taken (`strict`).
+//!
+//! Cancellation of a waiting `send` / `recv`: by `JoinHandle::abort` and, for `recv`, by an expired
+//! `time::timeout` (`TimeoutRecv` + `TriggerAll`): tokio documents both as cancel safe — no message
+//! is lost, a slot that had been handed over goes to the next sender in line.
 
 use crate::driver::{wk, XFamily};
 use shuttle_tokio_impl_inner::sync::mpsc;
@@ -45,10 +49,18 @@ pub enum MOp {
     Capacity,
     DropTx,
     DropRx,
+    /// `time::timeout(1s, rx.recv()).await`: the value / `None` / `Elapsed`
+    TimeoutRecv,
+    /// `time::trigger_timeouts(|_| true)` / `time::clear_triggers()`
+    TriggerAll,
+    ClearTriggers,
+    /// `task::yield_now().await`
+    Yield,
 }
 
 #[derive(Clone, Debug, PartialEq, Eq, Hash, PartialOrd, Ord)]
 pub enum MRes {
+    Elapsed,
     Unit,
     Ok,
     /// SendError / TrySendError::Closed
@@ -113,6 +125,11 @@ pub struct MM {
     rx_val: Option<u8>,
     /// returned sends minus values taken (never below 0)
     vis: u8,
+    /// `time`: a trigger is registered / the receiver's timeout is live / has expired
+    triggered: bool,
+    /// (the thread that owns it)
+    live: Option<u8>,
+    expired: bool,
 }
 
 impl MM {
@@ -185,6 +202,8 @@ impl<const A: bool> Family for MpscFam<A> {
     const ASYNC: bool = A;
 
     fn make_objs(cfg: &MCfg, n: usize) -> MObjs {
+        // harness hygiene: the wrapper's trigger table is a std thread-local that survives executions
+        shuttle_tokio_impl_inner::time::clear_triggers();
         let mut tx: Vec<Option<Tx>> = (0..n).map(|_| None).collect();
         let rx;
         match cfg.cap {
@@ -214,7 +233,15 @@ impl<const A: bool> Family for MpscFam<A> {
 
     fn exec(o: &MObjs, _l: &mut (), t: usize, op: &MOp) -> MRes {
         match op {
-            MOp::Send(_) | MOp::Recv => unreachable!("async operation in a synchronous context"),
+            MOp::Send(_) | MOp::Recv | MOp::TimeoutRecv | MOp::Yield => unreachable!("async operation in a synchronous context"),
+            MOp::TriggerAll => {
+                shuttle_tokio_impl_inner::time::trigger_timeouts(|_| true);
+                MRes::Unit
+            }
+            MOp::ClearTriggers => {
+                shuttle_tokio_impl_inner::time::clear_triggers();
+                MRes::Unit
+            }
             MOp::BlockingSend(v) => {
                 let h = take_tx(o, t);
                 let r = match &h {
@@ -340,15 +367,37 @@ impl<const A: bool> Family for MpscFam<A> {
                         None => MRes::None,
                     }
                 }
+                MOp::TimeoutRecv => {
+                    let mut g = o.rx.borrow_mut();
+                    let d = std::time::Duration::from_secs(1);
+                    let r = match g.as_mut().expect("receiver op without receiver") {
+                        Rx::B(r) => shuttle_tokio_impl_inner::time::timeout(d, r.recv()).await,
+                        Rx::U(r) => shuttle_tokio_impl_inner::time::timeout(d, r.recv()).await,
+                    };
+                    drop(g);
+                    match r {
+                        Ok(Some(v)) => MRes::Val(v),
+                        Ok(None) => MRes::None,
+                        Err(_) => MRes::Elapsed,
+                    }
+                }
+                MOp::Yield => {
+                    shuttle_tokio_impl_inner::task::yield_now().await;
+                    MRes::Unit
+                }
                 _ => Self::exec(o, l, t, op),
             }
         })
+    }
+    fn yields(op: &MOp) -> Option<bool> {
+        Some(matches!(op, MOp::Yield))
     }
 
     fn m_abortable(op: &MOp, phase: u8) -> bool {
         match op {
             // only while waiting (or not yet started): nothing has been put into the channel
-            MOp::Send(_) | MOp::Recv => phase <= 1,
+            MOp::Send(_) | MOp::Recv | MOp::TimeoutRecv => phase <= 1,
+            MOp::Yield => true,
             _ => false,
         }
     }
@@ -364,6 +413,11 @@ impl<const A: bool> Family for MpscFam<A> {
         if let Some(pos) = m.granted.iter().position(|x| *x == tt) {
             m.granted.remove(pos);
             m.give_back();
+        }
+        // a cancelled receiving task takes its timeout with it
+        if m.live == Some(tt) {
+            m.live = None;
+            m.expired = false;
         }
     }
 
@@ -383,6 +437,9 @@ impl<const A: bool> Family for MpscFam<A> {
             rx_closed: false,
             rx_val: None,
             vis: 0,
+            triggered: false,
+            live: None,
+            expired: false,
         }
     }
 
@@ -475,6 +532,53 @@ impl<const A: bool> Family for MpscFam<A> {
                     vec![MStep::Done(n, MRes::Val(v))]
                 }
             },
+            // `Timeout::poll` looks at the expiry first, then polls `recv()`; an expired timeout drops
+            // the pending `recv()` (tokio: cancel safe, no message is lost).  With the expiry and a
+            // message both there the wrapper says Elapsed, tokio's own `timeout` polls first and
+            // would deliver — the contract-only relation accepts either.
+            MOp::TimeoutRecv => {
+                if phase == 0 {
+                    if n.triggered {
+                        // born expired: `recv()` is never polled
+                        return vec![MStep::Done(n, MRes::Elapsed)];
+                    }
+                    n.live = Some(tt);
+                    n.expired = false;
+                }
+                let mut out = Vec::new();
+                if phase <= 1 && n.expired {
+                    let mut e = n.clone();
+                    e.live = None;
+                    e.expired = false;
+                    out.push(MStep::Done(e, MRes::Elapsed));
+                    if strict {
+                        return out;
+                    }
+                }
+                for st in Self::m_step(&n, t, &MOp::Recv, phase, strict) {
+                    out.push(match st {
+                        MStep::Done(mut x, r) => {
+                            x.live = None;
+                            x.expired = false;
+                            MStep::Done(x, r)
+                        }
+                        other => other,
+                    });
+                }
+                out
+            }
+            MOp::TriggerAll => {
+                n.triggered = true;
+                if n.live.is_some() {
+                    n.expired = true;
+                }
+                vec![MStep::Done(n, MRes::Unit)]
+            }
+            MOp::ClearTriggers => {
+                n.triggered = false;
+                vec![MStep::Done(n, MRes::Unit)]
+            }
+            MOp::Yield => vec![MStep::Done(n, MRes::Unit)],
             MOp::TryRecv => match phase {
                 0 => {
                     let mut out = Vec::new();
@@ -765,6 +869,34 @@ pub fn program_set<const A: bool>(set: &str) -> Vec<Program<MpscFam<A>>> {
                             cfg: MCfg { cap: Some(1), tx_threads: vec![0, 1] },
                             threads: vec![main2, g(&victim), g(&recvs)],
                         });
+                    }
+                }
+            }
+        }
+        // cancellation by `time::timeout` + `trigger_timeouts`: a timed-out `recv()` loses no message
+        // (main looks with try_recv afterwards) and gives back no slot it did not take.  No execution
+        // of these programs may fail (see fam_task.rs on the timeout table).
+        for cap in [Some(1), None] {
+            let snd = |v: u8| if cap.is_some() { MOp::Send(v) } else { MOp::USend(v) };
+            for rxs in [vec![MOp::TimeoutRecv], vec![MOp::TimeoutRecv, MOp::TimeoutRecv], vec![MOp::TimeoutRecv, MOp::TryRecv]] {
+                for mid in [vec![snd(11)], vec![snd(11), snd(12)], vec![MOp::DropTx]] {
+                    if !thorough && rxs.len() + mid.len() > 3 {
+                        continue;
+                    }
+                    // main sends (spawning has no scheduling point: yield so that the child can wait)
+                    let mut m = vec![GOp::Spawn(1), GOp::Op(MOp::Yield)];
+                    m.extend(g(&mid));
+                    m.extend(g(&[MOp::Yield, MOp::TriggerAll]));
+                    m.push(GOp::Join(1));
+                    m.extend(g(&[MOp::ClearTriggers, MOp::TryRecv, MOp::TryRecv]));
+                    out.push(Program { cfg: MCfg { cap, tx_threads: vec![0] }, threads: vec![m, g(&rxs)] });
+                    // the sender is a task of its own
+                    if mid.len() == 1 || thorough {
+                        let mut m2 = vec![GOp::Spawn(1), GOp::Spawn(2)];
+                        m2.extend(g(&[MOp::Yield, MOp::TriggerAll]));
+                        m2.extend([GOp::Join(1), GOp::Join(2)]);
+                        m2.extend(g(&[MOp::ClearTriggers, MOp::TryRecv]));
+                        out.push(Program { cfg: MCfg { cap, tx_threads: vec![2] }, threads: vec![m2, g(&rxs), g(&mid)] });
                     }
                 }
             }
